@@ -265,6 +265,23 @@ def run_C02(tier, rng, stats):
         if t is not None:
             worst = max(worst, t / BUDGET(n))
     stats.setdefault('exploration', {})['max_ticks_over_budget_ratio'] = round(worst, 4)
+    # tie of the cost model: measured ticks never exceed the model's static bound for the same input
+    ccases = [(c[0], 'cost', c[2], c[3]) for c in cases]
+    mb = vlib.run_model(['\t'.join(c) for c in ccases])
+    n = nd = 0
+    worst2 = 0.0
+    for c, x, b in zip(cases, outs['debug'], mb):
+        t = vlib.ticks_of(x)
+        if b.startswith('OK ') and t is not None and vlib.outcome_class(x) in ('OK', 'ERR'):
+            n += 1
+            bound = int(b[3:])
+            worst2 = max(worst2, t / bound)
+            if t > bound:
+                nd += 1
+                res['violations'].append({'kind': 'cost-model', 'cases': [list(c)], 'observed': x, 'expected': b,
+                                          'why': 'implementation took %d counted steps, the model bound is %d' % (t, bound)})
+    res['levels']['ticks<=model-bound/debug'] = (n, nd)
+    stats['exploration']['max_ticks_over_model_bound_ratio'] = round(worst2, 4)
     return res
 
 def run_C03(tier, rng, stats):
@@ -542,7 +559,7 @@ def rejudge(pid, cases, d, rl, m):
 import re as _re
 from decimal import Decimal as _D
 
-def run_pairs(pid, pairs, stats, profiles=('debug', 'release'), what='pair'):
+def run_pairs(pid, pairs, stats, profiles=('debug', 'release'), what='pair', numeric_only=False):
     """pairs: list of (caseA, caseB, note); both must have the same outcome (bit for bit) on the implementation;
        every case is also compared with the model"""
     allc = []
@@ -557,6 +574,9 @@ def run_pairs(pid, pairs, stats, profiles=('debug', 'release'), what='pair'):
         for a, b, note in pairs:
             x, y = vlib.strip_ticks(impl[idx[a]]), vlib.strip_ticks(impl[idx[b]])
             n += 1
+            if x != y and numeric_only and a[0] in ('number', 'decimal') and value_of_out(a[0], x) is not None \
+                    and value_of_out(a[0], x) == value_of_out(a[0], y):
+                continue      # Integer(2) vs Float(2.0), 20.0 vs 20: the same number (the property compares values)
             if x != y:
                 res['violations'].insert(0, {'kind': 'metamorphic', 'cases': [list(a), list(b)], 'profile': prof,
                                              'observed': x + ' | ' + y,
@@ -822,3 +842,151 @@ def lit_pool_small(ev):
 
 for _p in ['C12', 'C13', 'C14', 'C20']:
     PROPS[_p] = {}
+
+# ============================================================================ C11 aggregates
+import itertools as _it
+AGG_POOL = {'i64': ['0', '1', '2', '3', '5', '6', '-2', '-3', '12', '18', '9223372036854775807', '-9223372036854775807'],
+            'f64': ['0', '1', '2', '3', '0.5', '2.5', '-2', '-0.5', '7', '100'],
+            'decimal': ['0', '1', '2', '3', '0.5', '2.5', '-2', '-0.5', '1.10', '100'],
+            'number': ['0', '1', '2', '3', '0.5', '2.5', '-2', '-0.5', '7', '2.0']}
+
+def agg_arg(v):
+    return v if not v.startswith('-') else '(' + v + ')'
+
+def py_agg(ev, f, vals):
+    """independent reference on the multiset of values (exact rationals); None = not decided here"""
+    from fractions import Fraction as Fr
+    xs = [Fr(v) for v in vals]
+    if f == 'min':
+        return min(xs)
+    if f == 'max':
+        return max(xs)
+    if f == 'avg':
+        s = sum(xs) / len(xs)
+        if ev == 'i64':
+            import math as _m
+            q = abs(sum(xs)) // len(xs)
+            return Fr(q if sum(xs) >= 0 else -q)
+        return s
+    if f in ('med', 'median'):
+        s = sorted(xs)
+        n = len(s)
+        if n % 2:
+            return s[n // 2]
+        m = (s[n // 2] + s[n // 2 - 1]) / 2
+        if ev == 'i64':
+            t = s[n // 2] + s[n // 2 - 1]
+            q = abs(t) // 2
+            return Fr(q if t >= 0 else -q)
+        return m
+    if f == 'gcd':
+        import math as _m
+        g = 0
+        for x in xs:
+            g = _m.gcd(g, abs(int(x)))
+        return Fr(g)
+    if f == 'lcm':
+        import math as _m
+        if any(x == 0 for x in xs):
+            return Fr(0)
+        l = 1
+        for x in xs:
+            l = l * abs(int(x)) // _m.gcd(l, abs(int(x)))
+        return Fr(l)
+    return None
+
+def value_of_out(ev, out):
+    from fractions import Fraction as Fr
+    if not out.startswith('OK '):
+        return None
+    v = out[3:]
+    if ev == 'i64':
+        return Fr(int(v))
+    if ev == 'f64':
+        x = w2f(v)
+        return Fr(x) if x == x and abs(x) != float('inf') else None
+    if ev == 'number':
+        if v[0] == 'I':
+            return Fr(int(v[1:]))
+        x = w2f(v[1:])
+        return Fr(x) if x == x and abs(x) != float('inf') else None
+    if ev == 'decimal':
+        neg = v.startswith('-')
+        c, sc = v.lstrip('-').split('/')
+        r = Fr(int(c), 10 ** int(sc))
+        return -r if neg else r
+    return None
+
+def run_C11(tier, rng, stats):
+    cs = []
+    meta = {}
+    permpairs = []
+    maxlen = 3 if tier == 'quick' else 4
+    for ev in ['f64', 'i64', 'decimal', 'number']:
+        pool = AGG_POOL[ev]
+        small = pool[:7] if tier == 'quick' else pool
+        for f in gen.FV[ev]:
+            lists = []
+            for n in range(1, maxlen + 1):
+                src = small if n <= 2 else small[:5]
+                for t in _it.product(src, repeat=n):
+                    lists.append(list(t))
+            for _ in range(150 if tier == 'quick' else 1500):
+                n = 1 + rng.below(8)
+                lists.append([rng.choice(pool) for _ in range(n)])
+            for L in lists:
+                e = f + '(' + ','.join(agg_arg(v) for v in L) + ')'
+                c = case(ev, 'eval', None, e)
+                cs.append(c)
+                meta[c] = (ev, f, L)
+                # permutations: all for short lists, a few random ones beyond
+                perms = list(_it.permutations(L)) if len(L) <= (3 if tier == 'quick' else 4) else \
+                    [tuple(rng.choice(list(_it.permutations(L[:6]))) ) + tuple(L[6:]) for _ in range(3)]
+                for P in perms[:24]:
+                    c2 = case(ev, 'eval', None, f + '(' + ','.join(agg_arg(v) for v in P) + ')')
+                    if c2 != c:
+                        permpairs.append((c, c2, 'argument order'))
+            cs.append(case(ev, 'eval', None, f + '()'))
+            cs.append(case(ev, 'eval', None, f + '(1,)'))
+            cs.append(case(ev, 'eval', None, f + '(,1)'))
+    cs += s_aggfail(tier, rng)
+    stats['rule'] = ('min max avg med/median (f64 i64 decimal number) and gcd lcm (i64): all argument lists of length <= %d over a pool with duplicates, negatives, zeros and extremes, '
+                     'random lists up to 8, all permutations of short lists (a sample beyond); empty lists, dangling commas, failing arguments; '
+                     'values also compared with an exact reference computed from the multiset (Python fractions)' % maxlen)
+    # permutation pairs: avg in floating point is only order independent when every partial sum is exact (small pool: true)
+    res = run_pairs('C11', permpairs, stats, profiles=('debug',), what='permutation', numeric_only=True)
+    cases, outs, model = run_streams(cs, stats, profiles=('debug', 'release'))
+    merge(res, std_judge('C11', cases, outs, model))
+    n = nd = 0
+    for c, x in zip(cases, outs['debug']):
+        if c not in meta:
+            continue
+        ev, f, L = meta[c]
+        want = py_agg(ev, f, L)
+        got = value_of_out(ev, vlib.strip_ticks(x))
+        if want is None:
+            continue
+        n += 1
+        representable = True
+        if ev == 'i64' and not (-2**63 <= want <= 2**63 - 1):
+            representable = False
+        if got is None:
+            if representable and ev == 'i64' and f in ('min', 'max', 'med', 'median', 'avg', 'gcd'):
+                nd += 1
+                res['violations'].insert(0, {'kind': 'aggregate-value', 'cases': [list(c)], 'observed': x, 'expected': str(want),
+                                             'why': '%s of %s should be %s' % (f, L, want)})
+            continue
+        ok = (got == want)
+        if ev in ('f64', 'number') and f in ('avg', 'med', 'median') and not ok:
+            ok = abs(got - want) <= abs(want) * 1e-15 + 1e-300
+        if ev == 'decimal' and not ok:
+            ok = abs(got - want) <= abs(want) * 1e-27 + 1e-27
+        if not ok:
+            nd += 1
+            res['violations'].insert(0, {'kind': 'aggregate-value', 'cases': [list(c)], 'observed': x, 'expected': str(want),
+                                         'why': '%s of %s should be %s, got %s' % (f, L, want, got)})
+    res['levels']['value-vs-multiset-reference'] = (n, nd)
+    return res
+
+PROPS['C11'] = {}
+PROPS['C02'] = PROPS.get('C02', {})
